@@ -425,7 +425,10 @@ fn row_to_json(row: Row) -> JsonValue {
 
 fn write_query_contains_write(cypher: &str) -> ApiResult<bool> {
     let trimmed = cypher.trim_start();
-    if trimmed.len() >= 7 && trimmed[..7].eq_ignore_ascii_case("EXPLAIN") {
+    if trimmed
+        .get(..7)
+        .is_some_and(|prefix| prefix.eq_ignore_ascii_case("EXPLAIN"))
+    {
         return Ok(false);
     }
     let parsed =
@@ -1973,6 +1976,13 @@ pub extern "C" fn ndb_stmt_write_count(stmt: *mut ndb_stmt_t, out_count: *mut u3
 #[cfg(test)]
 mod tests {
     use super::*;
+
+    #[test]
+    fn classify_accepts_multibyte_character_across_prefix_boundary() {
+        // byte 7 falls inside the two-byte character: must not panic (a panic aborts the host)
+        assert!(!write_query_contains_write("WITH '\u{e9}' AS x RETURN x").unwrap());
+        let _ = write_query_contains_write("CREATE\u{a0}(n)");
+    }
 
     #[test]
     fn classify_write_query_detects_create() {
